@@ -17,7 +17,7 @@ pub fn def() -> PropDef {
     }
 }
 
-const SEPARATORS: [&str; 5] = ["_", ",", " ", "'", ""];
+const SEPARATORS: [&str; 7] = ["_", ",", " ", "'", "", "\u{202f}", "\u{a0}"];
 
 #[derive(Clone, Debug, Serialize, Deserialize)]
 struct Case {
@@ -78,7 +78,7 @@ fn number_strategy() -> impl Strategy<Value = (f64, &'static str)> {
 }
 
 fn case_strategy() -> impl Strategy<Value = Case> {
-    (number_strategy(), any::<bool>(), 0u8..5, 1u8..11, 1u8..18).prop_map(|((x, class), neg, sep, threshold, sd)| {
+    (number_strategy(), any::<bool>(), 0u8..7, 1u8..11, 1u8..18).prop_map(|((x, class), neg, sep, threshold, sd)| {
         let x = if neg && !x.is_nan() { -x } else { x };
         Case {
             bits: x.to_bits(),
@@ -97,7 +97,7 @@ fn round_sig(x: f64, sd: usize) -> f64 {
 fn check(c: &Case, st: &mut Stats) -> CheckResult {
     st.eval();
     let x = f64::from_bits(c.bits);
-    let sep = SEPARATORS[c.sep as usize % 5];
+    let sep = SEPARATORS[c.sep as usize % 7];
     let opts = FormatOptions {
         digit_separator: sep.to_string(),
         digit_grouping_threshold: c.threshold as usize,
@@ -246,7 +246,7 @@ fn check(c: &Case, st: &mut Stats) -> CheckResult {
 fn run(cfg: &Cfg) -> Report {
     let mut rep = Report::new(
         cfg,
-        "f64 values by class (integers around 10^k and 2^53, notation switch points 1e-7..1e7 ± 3 ulp, decimal rounding midpoints at 1-16 digits ± 2 ulp, short decimals, subnormals, extremes, random bit patterns, log-uniform magnitudes, NaN/inf/±0; both signs) x separator in {_ , space ' none} x grouping threshold 1-10 x significant digits 1-17. The value is obtained by interpreting its shortest literal (bit-exactness verified), formatted with Value::pretty_print_with. Oracle: keywords for NaN/inf; otherwise, separator removed, the text parses in Rust and is accepted by numbat as a literal with the same value; integers below 2^53 show all digits, grouped in threes iff the digit count reaches the threshold; other values equal x rounded to the configured significant digits (reference: Rust's exact {:.Ne} formatting of x and of its two neighbouring floats, i.e. either neighbour is accepted within 1 ulp of a midpoint). non-trivial = not an integer below 1000; distinct = (bits, options)",
+        "f64 values by class (integers around 10^k and 2^53, notation switch points 1e-7..1e7 ± 3 ulp, decimal rounding midpoints at 1-16 digits ± 2 ulp, short decimals, subnormals, extremes, random bit patterns, log-uniform magnitudes, NaN/inf/±0; both signs) x separator in {_ , space ' none, U+202F, U+00A0} x grouping threshold 1-10 x significant digits 1-17. The value is obtained by interpreting its shortest literal (bit-exactness verified), formatted with Value::pretty_print_with. Oracle: keywords for NaN/inf; otherwise, separator removed, the text parses in Rust and is accepted by numbat as a literal with the same value; integers below 2^53 show all digits, grouped in threes iff the digit count reaches the threshold; other values equal x rounded to the configured significant digits (reference: Rust's exact {:.Ne} formatting of x and of its two neighbouring floats, i.e. either neighbour is accepted within 1 ulp of a midpoint). non-trivial = not an integer below 1000; distinct = (bits, options)",
     );
     let cases = cfg.tier.pick(500000u32, 4000000u32);
     rep.absorb(run_proptest(
@@ -257,7 +257,7 @@ fn run(cfg: &Cfg) -> Report {
         |c: &Case| serde_json::to_value(c).unwrap(),
         check,
     ));
-    rep.assume("documented separator choices only (\"_\", \",\", \" \", \"'\", \"\")");
+    rep.assume("the documented separator choices (\"_\", \",\", \" \", \"'\", \"\") and two multi-byte ones (U+202F, U+00A0); separators longer than 8 bytes are not generated");
     rep
 }
 
